@@ -8,6 +8,14 @@
 3. The real route.NewGrafanaNet runs every scenario against a scripted httptest endpoint (harness/gnet).
 4. TLC evaluates the level-A statement (spec/GrafanaNetOps.tla via GrafanaNetTrace.tla) on the recorded events
    and names the clauses an execution breaks.
+
+Scenario family "pile" (shutdown of a backed-up blocking route): the endpoint is down, one goroutine per series
+dispatches one point, the driver waits until each call has returned or is parked on the full queue of its shard
+(goroutine state "chan send"), calls Shutdown and lets the endpoint recover.  Every Dispatch call that returned
+(before or while Shutdown ran) handed its point to the buffer and must be acknowledged when Shutdown returns;
+calls still parked at the end are recorded ("blocked") and not judged.  The model has the same environment:
+up to NDisp calls in progress, callers parked on sendq[w] get the slot a receive frees (as the Go runtime does),
+Shutdown may be requested while callers are parked; the outage variant (Outage = TRUE) generates these scenarios.
 """
 import copy, json, os, random, re, shutil
 from concurrent.futures import ThreadPoolExecutor
@@ -41,14 +49,17 @@ def names_for(conc, shards, tag):
 
 # ------------------------------------------------------------------ model checking
 BASE = dict(NW=2, Cap=1, FlushMaxNum=2, NSeries=2, MaxMetrics=3, MaxFaults=1, Blocking=False,
-            AllowShutdown=True, Protocol="repaired", Mutant="")
+            AllowShutdown=True, Protocol="repaired", Mutant="", NDisp=1, Outage=False)
+# the endpoint is down until the shutdown signal; every series gets one point by its own dispatcher
+OUTAGE = dict(BASE, Blocking=True, Outage=True, NSeries=4, MaxMetrics=4, NDisp=4, MaxFaults=1, live=False)
 
 
 def mc_jobs(ctx):
     q = ctx.quick()
     ok, bad = [], []
     if q:
-        ok += [dict(BASE), dict(BASE, Blocking=True), dict(BASE, Cap=2, FlushMaxNum=1, MaxMetrics=3, MaxFaults=2, live=False)]
+        ok += [dict(BASE), dict(BASE, Blocking=True, NDisp=2), dict(BASE, Cap=2, FlushMaxNum=1, MaxMetrics=3, MaxFaults=2, live=False),
+               dict(OUTAGE, FlushMaxNum=1, NSeries=3, MaxMetrics=3, NDisp=3)]
     else:
         for blocking in (False, True):
             ok += [dict(BASE, Blocking=blocking),
@@ -58,10 +69,19 @@ def mc_jobs(ctx):
                    dict(BASE, Blocking=blocking, MaxMetrics=4, MaxFaults=2, live=False),
                    dict(BASE, Blocking=blocking, Cap=2, FlushMaxNum=1, MaxMetrics=4, MaxFaults=2, live=False),
                    dict(BASE, Blocking=blocking, Cap=2, FlushMaxNum=2, MaxMetrics=4, MaxFaults=2, live=False)]
+        # several dispatchers, callers parked on full queues while Shutdown runs
+        ok += [dict(BASE, Blocking=True, NDisp=2),
+               dict(BASE, Blocking=True, NDisp=2, FlushMaxNum=1, MaxFaults=2),
+               dict(BASE, Blocking=True, NDisp=3, NSeries=3, MaxMetrics=4, live=False),
+               dict(BASE, Blocking=False, NDisp=2, NSeries=3, MaxMetrics=4, live=False),
+               dict(OUTAGE), dict(OUTAGE, FlushMaxNum=1), dict(OUTAGE, Cap=2, NSeries=5, MaxMetrics=5, NDisp=5, NW=1)]
     # the protocol as found in the pinned tree (defect F7) and named deviations: each must be rejected
     bad += [(dict(BASE, Protocol="pinned"), {"ShutdownReturns", "temporal"}),
             (dict(BASE, Mutant="give_up"), {"NeverAbandoned", "LevelA"}),
-            (dict(BASE, Mutant="nb_no_default"), {"NonBlockingNeverBlocks"})]
+            (dict(BASE, Mutant="nb_no_default"), {"NonBlockingNeverBlocks"}),
+            # the shutdown drain receives only what was queued when the worker saw the signal: what parked callers
+            # enqueue meanwhile stays behind
+            (dict(BASE, Blocking=True, Mutant="drain_counted_once", live=False), {"AllBufferedFlushed"})]
     if not q:
         bad += [(dict(BASE, Blocking=True, Mutant="shard_by_point"), {"LevelA"}),
                 (dict(BASE, Mutant="drop_uncounted"), {"DropsCounted", "LevelA", "NeverAbandoned"}),
@@ -69,7 +89,10 @@ def mc_jobs(ctx):
                 (dict(BASE, Mutant="flush_loses_last"), {"NeverAbandoned", "LevelA"}),
                 (dict(BASE, Mutant="no_drain", Cap=2), {"AllBufferedFlushed", "LevelA"}),
                 (dict(BASE, Mutant="no_final_flush"), {"AllBufferedFlushed", "LevelA"}),
-                (dict(BASE, Blocking=True, Protocol="pinned"), {"ShutdownReturns", "temporal"})]
+                (dict(BASE, Blocking=True, Protocol="pinned"), {"ShutdownReturns", "temporal"}),
+                (dict(OUTAGE, Mutant="drain_counted_once"), {"AllBufferedFlushed"}),
+                # the same deviation seen by the liveness clause alone (safety invariants off)
+                (dict(BASE, Blocking=True, Mutant="drain_counted_once", only_props=True), {"AckedAtLeastOnce", "temporal"})]
     return ok, bad
 
 
@@ -77,7 +100,8 @@ def mc_one(ctx, consts, expect_ok, i):
     consts = dict(consts)
     live = consts.pop("live", True)
     extra = "PROPERTIES ShutdownReturns AckedAtLeastOnce\n" if live else ""
-    return ctx.tlc("GrafanaNet", "GrafanaNet_mc.cfg", consts=consts, workers=4, timeout=ctx.pick(1500, 6000),
+    cfg = "GrafanaNet_live.cfg" if consts.pop("only_props", False) else "GrafanaNet_mc.cfg"
+    return ctx.tlc("GrafanaNet", cfg, consts=consts, workers=4, timeout=ctx.pick(1500, 6000),
                    expect_ok=expect_ok, count=expect_ok, extra_cfg=extra, tag="mc%s%d" % ("ok" if expect_ok else "bad", i),
                    heap="4g")
 
@@ -103,7 +127,8 @@ def model_check_join(ctx, futs):
             if r["violated"] is None or r["violated"] not in want:
                 raise Machinery("deviation %s of GrafanaNet.tla is not rejected as expected (violated=%s, wanted one of %s); log %s"
                                 % (json.dumps(c), r["violated"], sorted(want), r["log"]))
-            rejected.append("%s%s -> %s" % (c["Protocol"], ("/" + c["Mutant"]) if c["Mutant"] else "", r["violated"]))
+            rejected.append("%s%s%s -> %s" % (c["Protocol"], ("/" + c["Mutant"]) if c["Mutant"] else "",
+                                              "/outage" if c.get("Outage") else "", r["violated"]))
     ctx.cov["model_deviations_rejected"] = rejected
 
 
@@ -120,12 +145,27 @@ def gen_model_scenarios(ctx, want, pool):
 
     def sim(ci, cap, fmn, blocking):
         consts = dict(NW=2, Cap=cap, FlushMaxNum=fmn, NSeries=2, MaxMetrics=4, MaxFaults=3, Blocking=blocking,
-                      AllowShutdown=True)
+                      AllowShutdown=True, NDisp=1, Outage=False)
         return ctx.tlc("GrafanaNet", "GrafanaNet_gen.cfg", consts=consts, workers=1, timeout=900,
                        simulate="num=%d" % (per * 3), args=["-depth", "60", "-seed", str(ctx.seed * 100 + ci)],
                        count=False, tag="gen%d" % ci, heap="2g")
 
+    # outage behaviours (blocking, the endpoint down until the shutdown signal, one dispatcher per series):
+    # the "pile" scenarios with the model's small constants
+    ocombos = [(nw, cap, fmn) for nw in (1, 2) for cap in (1, 2) for fmn in (1, 2)]
+    rng.shuffle(ocombos)
+    ocombos = ocombos[:ctx.pick(2, 8)]
+    operc = ctx.pick(6, 40)
+
+    def osim(ci, nw, cap, fmn):
+        consts = dict(NW=nw, Cap=cap, FlushMaxNum=fmn, NSeries=6, MaxMetrics=6, MaxFaults=2, Blocking=True,
+                      AllowShutdown=True, NDisp=6, Outage=True)
+        return ctx.tlc("GrafanaNet", "GrafanaNet_gen.cfg", consts=consts, workers=1, timeout=900,
+                       simulate="num=%d" % (operc * 4), args=["-depth", "90", "-seed", str(ctx.seed * 100 + 50 + ci)],
+                       count=False, tag="geno%d" % ci, heap="2g")
+
     futs = [pool.submit(sim, ci, *c) for ci, c in enumerate(combos)]
+    ofuts = [pool.submit(osim, ci, *c) for ci, c in enumerate(ocombos)]
     for (cap, fmn, blocking), f in zip(combos, futs):
         r = f.result()
         got = 0
@@ -153,6 +193,34 @@ def gen_model_scenarios(ctx, want, pool):
                 break
     if len(out) < max(3, want // 4):
         raise Machinery("TLC simulation produced only %d scenarios" % len(out))
+    npile = 0
+    for (nw, cap, fmn), f in zip(ocombos, ofuts):
+        r = f.result()
+        got = 0
+        for s in ctx.tlc_printed(r, "@@S"):
+            if s in seen:
+                continue
+            seen.add(s)
+            h = json.loads(s)
+            sd = [i for i, e in enumerate(h["hist"]) if e["op"] == "sd"]
+            if not h["sd"] or not sd or h["hist"][sd[0]]["parked"] == 0:
+                continue            # shutdown without parked callers: the family above has those
+            pile = [e["s"] for e in h["hist"] if e["op"] == "d"]
+            down = [e["k"] for e in h["hist"][:sd[0]] if e["op"] == "f"]
+            faults = [rng.choice(CODES[e["k"]]) for e in h["hist"][sd[0]:] if e["op"] == "f"]
+            while faults and faults[-1] == "200":
+                faults.pop()
+            out.append(dict(conc=nw, bufsize=nw * cap, fmn=fmn, fmw_ms=rng.choice([5, 10, 20]), timeout_ms=150,
+                            blocking=True, ndisp=1, names=names_for(nw, [x % nw for x in range(6)], "o"), steps=[],
+                            faults=faults, quiesce=False, shutdown=True, origin="tlc",
+                            pile=pile, pile_code=rng.choice(CODES[down[0]]) if down else "503", recover="after",
+                            model_parked=h["hist"][sd[0]]["parked"]))
+            got += 1
+            if got >= operc:
+                break
+        npile += got
+    if npile < ctx.pick(4, 30):
+        raise Machinery("TLC simulation produced only %d outage scenarios with parked callers" % npile)
     return out
 
 
@@ -211,6 +279,30 @@ def random_scenario(rng, npoints):
                 quiesce=rng.random() < 0.3, shutdown=rng.random() < 0.9, origin="seeded")
 
 
+def pile_scenario(rng):
+    """shutdown of a backed-up blocking route: more concurrent callers than the shard's queue and batch hold"""
+    conc = rng.choice([1, 1, 2, 3])
+    per = rng.choice([1, 1, 2, 3])
+    fmn = rng.choice([1, 1, 2, 3, 5])
+    target = rng.randrange(conc)
+    k = fmn + per + rng.randint(6, 30)
+    shards = [target if rng.random() < 0.8 else rng.randrange(conc) for _ in range(k)]
+    nwarm = rng.choice([0, 0, 2, 3])
+    names = names_for(conc, [None] * nwarm + shards, "p%d" % rng.randrange(10 ** 6))
+    steps = []
+    for _ in range(rng.randint(2, 8) if nwarm else 0):
+        steps.append(dict(op="d", s=rng.randrange(nwarm)))
+        if rng.random() < 0.2:
+            steps.append(dict(op="q"))
+    pile = list(range(nwarm, nwarm + k))
+    rng.shuffle(pile)
+    return dict(conc=conc, bufsize=conc * per, fmn=fmn, fmw_ms=rng.choice([5, 10, 20]), timeout_ms=150, blocking=True,
+                ndisp=1, names=names, steps=steps, faults=fault_script(rng, 6 + k // max(1, fmn), rng.choice([0.0, 0.3, 0.5]), 2),
+                quiesce=False, shutdown=True, origin="seeded", pile=pile,
+                pile_code=rng.choice(["503", "503", "500", "429", "reset", "timeout"]),
+                recover=rng.choice(["after", "after", "after", "with"]))
+
+
 # ------------------------------------------------------------------ driver + judgement
 def run_driver(ctx, scens, name, timeout):
     for k, s in enumerate(scens):
@@ -231,7 +323,12 @@ def run_driver(ctx, scens, name, timeout):
                 pass
             return None, dict(log=res["log"], last=prog[-12:], tail=res["text"][-2500:])
         raise Machinery("gnet driver failed (rc=%s); log %s\n%s" % (res["rc"], res["log"], res["text"][-2000:]))
-    return ctx.read_ndjson(tf), None
+    events = ctx.read_ndjson(tf)
+    bad = [e for e in events if e["ev"] == "harness"]
+    if bad:
+        raise Machinery("gnet driver could not establish a scenario's precondition (%d times), first: %s; log %s"
+                        % (len(bad), bad[0].get("what"), res["log"]))
+    return events, None
 
 
 def split(events):
@@ -308,11 +405,12 @@ def judge(ctx, events, scens, pool):
                 first.setdefault(clause, where)      # one report per scenario and clause: the first event that breaks it
             for clause, where in first.items():
                 ev = flat[where - 1] if 0 < where <= len(flat) else None
-                sig = "%s conc=%s %s origin=%s" % (clause, "1" if sc["conc"] == 1 else ">=2",
-                                                   "blocking" if sc["blocking"] else "non-blocking", sc["origin"])
+                sig = "%s conc=%s %s origin=%s%s" % (clause, "1" if sc["conc"] == 1 else ">=2",
+                                                     "blocking" if sc["blocking"] else "non-blocking", sc["origin"],
+                                                     " shutdown-with-parked-callers" if sc.get("pile") else "")
                 what = {
                     "ShutdownReturns": "Shutdown() of the route had not returned after %s s" % (ev or {}).get("limit_s", "?"),
-                    "AllBufferedFlushed": "Shutdown() returned although metrics accepted before the call were never acknowledged",
+                    "AllBufferedFlushed": "Shutdown() returned although metrics accepted before it returned (their Dispatch call had returned) were never acknowledged",
                     "AckedAtLeastOnce": "a metric accepted into the buffer was never contained in a 2xx-answered POST",
                     "NeverSkipped": "after a failed POST the next POST carrying one of its points was not the same batch",
                     "SeriesOrder": "points of one series were acknowledged out of received order",
@@ -403,6 +501,23 @@ def selftest_binding(ctx, events):
         return None
     cases.append(("ShutdownReturns", pick(hang)))
 
+    # 6. a point accepted while Shutdown ran (its Dispatch call returned between sdcall and sdret) is in no POST
+    def late(b):
+        i = next((j for j, e in enumerate(b) if e["ev"] == "sdcall"), None)
+        if i is None:
+            return None
+        for j in range(i + 1, len(b)):
+            if b[j]["ev"] in ("sdret", "sdtimeout"):
+                break
+            if b[j]["ev"] == "ret":
+                nb = copy.deepcopy(b)
+                for e in nb:
+                    if e["ev"] == "post":
+                        e["pts"] = [p for p in e["pts"] if p[1] != b[j]["id"]]
+                return nb
+        return None
+    cases.append(("AllBufferedFlushed", pick(late)))
+
     cases = [(c, b) for c, b in cases if b is not None]
     if len(cases) < 3:
         raise Machinery("binding self-test: too few corruptible executions (%d)" % len(cases))
@@ -433,7 +548,11 @@ def run(ctx):
         nrand, npts = ctx.pick((30, 300), (300, 400))
         for _ in range(nrand):
             scens.append(random_scenario(rng, rng.randint(npts // 2, npts + npts // 2)))
-        ctx.log("scenarios: %d from TLC simulation + %d seeded" % (nmodel, nrand))
+        npile = ctx.pick(24, 200)
+        for _ in range(npile):
+            scens.append(pile_scenario(rng))
+        ctx.log("scenarios: %d from TLC simulation (%d outage) + %d seeded + %d seeded shutdown-of-a-backed-up-route"
+                % (nmodel, sum(1 for x in scens[:nmodel] if x.get("pile")), nrand, npile))
 
         events, crashed = run_driver(ctx, scens, "c17", timeout=ctx.pick(900, 3000))
         model_check_join(ctx, mc)
@@ -448,6 +567,27 @@ def run(ctx):
         nsd = sum(1 for e in events if e["ev"] == "sdcall")
         if nposts == 0 or nfail == 0 or ndisp == 0 or nsd == 0:
             raise Machinery("dead driver: posts=%d failed=%d dispatched=%d shutdowns=%d" % (nposts, nfail, ndisp, nsd))
+        # shutdown of a backed-up route: callers really were parked when Shutdown was called, and calls returned
+        # (points were accepted) while it ran
+        pst = dict(scenarios=0, with_parked=0, parked_calls=0, with_accept_during_shutdown=0, accepted_during_shutdown=0,
+                   still_blocked_at_end=0)
+        for b in split(events):
+            if not scens[b[0]["k"]].get("pile"):
+                continue
+            pst["scenarios"] += 1
+            i = next((j for j, e in enumerate(b) if e["ev"] == "sdcall"), None)
+            if i is None:
+                continue
+            pst["with_parked"] += b[i]["parked"] > 0
+            pst["parked_calls"] += max(0, b[i]["parked"])
+            j = next((x for x in range(i, len(b)) if b[x]["ev"] in ("sdret", "sdtimeout")), len(b))
+            late = sum(1 for e in b[i:j] if e["ev"] == "ret")
+            pst["with_accept_during_shutdown"] += late > 0
+            pst["accepted_during_shutdown"] += late
+            pst["still_blocked_at_end"] += sum(e["n"] for e in b if e["ev"] == "blocked")
+        if pst["with_parked"] < pst["scenarios"] // 2 or pst["with_accept_during_shutdown"] < pst["scenarios"] // 3:
+            raise Machinery("dead driver (shutdown of a backed-up route): %s" % json.dumps(pst))
+        ctx.cov["shutdown_with_parked_callers"] = pst
 
         nviol = judge(ctx, events, scens, pool)
         if nviol == 0:
@@ -470,12 +610,20 @@ def run(ctx):
                    "buffer 1-2 per worker, FlushMaxNum 1-2, <= 4 points over 2 series, <= 3 failures, with/without shutdown) "
                    "+ seeded scenarios (concurrency 1-4, 1-8 slots per worker, FlushMaxNum 1-7, 2-12 series, 1-3 dispatcher "
                    "goroutines, 30-60 % failing POSTs of kinds 400/429/500/503/hang-past-timeout/reset, endpoint holds with "
-                   "bursts larger than the buffers, shutdown with non-empty buffers); every Dispatch and every POST of every "
+                   "bursts larger than the buffers, shutdown with non-empty buffers) "
+                   "+ shutdown of a backed-up blocking route (TLC outage behaviours: 1-2 workers, 1-2 slots, FlushMaxNum 1-2, <= 6 "
+                   "concurrent callers; seeded: concurrency 1-3, 1-3 slots per worker, FlushMaxNum 1-5, 8-40 concurrent callers "
+                   "of which most are parked on one full queue, endpoint answering 429/500/503/reset/hanging until Shutdown "
+                   "waits or until just before it); every Dispatch and every POST of every "
                    "execution is evaluated by TLC (GrafanaNetTrace.tla); evaluations = executions (scenarios run on the real route); "
                    "distinct = distinct (configuration, steps, fault sequence) in whose execution at least one POST failed")
     ex = next((s for s in scens if s["origin"] == "tlc" and s["faults"]), scens[0])
     ctx.sample(dict(origin="tlc", blocking=ex["blocking"], bufsize=ex["bufsize"], fmn=ex["fmn"], steps=ex["steps"], faults=ex["faults"],
                     shutdown=ex["shutdown"]))
+    ex = scens[-1]
+    ctx.sample(dict(origin="seeded", family="shutdown of a backed-up blocking route", conc=ex["conc"], bufsize=ex["bufsize"],
+                    fmn=ex["fmn"], callers=len(ex["pile"]), pile_code=ex["pile_code"], recover=ex["recover"],
+                    first_faults=ex["faults"][:6]))
     ex = scens[nmodel]
     ctx.sample(dict(origin="seeded", conc=ex["conc"], bufsize=ex["bufsize"], fmn=ex["fmn"], blocking=ex["blocking"],
                     ndisp=ex["ndisp"], first_steps=ex["steps"][:10], first_faults=ex["faults"][:10]))
@@ -483,6 +631,9 @@ def run(ctx):
         "the acknowledgement order is the order in which the endpoint received the POSTs (one mutex in the test server)",
         "liveness is observed with deadlines: accepted-but-unacknowledged after 30 s, Dispatch of a non-blocking route "
         "pending for 5 s, Shutdown pending for 20 s (normal: milliseconds)",
+        "'parked on the full queue' and 'Shutdown is waiting' are read from the goroutine states (runtime.Stack: chan send "
+        "under (*GrafanaNet).Dispatch; a blocked (*GrafanaNet).Shutdown); they only steer the environment (when Shutdown is "
+        "called, when the endpoint recovers); a Dispatch call counts as accepted when it has returned",
         "the shard function of the model is an arbitrary fixed function of the series; series names of the generated "
         "scenarios are chosen so that FNV-1a(name) % concurrency equals it",
     ]
